@@ -76,7 +76,6 @@ def classify (unknown : Option Any) (minParts : Nat) (path : List GoString) :
   | .error s =>
     match s.err with
     | .unmodelled => .unmodelled
-    | .panic => .panic
     | .notFound =>
       match unknown with
       | some u => .present u
@@ -189,14 +188,12 @@ def denote (re : RegexOracle) : Expr → Env → Out
     match select env sel.path with
     | .error => .err false
     | .unmodelled => .unmodelled
-    | .panic => .panic
     | .absent => .val (notPresentDisposition op)
     | .present v => matchValue re op raw v
   | .coll op sel b inner, env =>
     match select env sel.path with
     | .error => .err false
     | .unmodelled => .unmodelled
-    | .panic => .panic
     | .absent => .val (op == .all)
     | .present v =>
       match items v with
